@@ -244,7 +244,8 @@ def run(ctx):
     for name, src in srcs:
         for k, m in enumerate(layout_mutations(src, rnd, 3 if ctx.quick else 10)):
             extra.append(('%s~%d' % (name, k), m))
-    syn_traces(ctx, srcs + extra)
+    from .c09 import SHORTIF_PROBES
+    syn_traces(ctx, srcs + extra + [('shortif-probe%d' % k, x) for k, x in enumerate(SHORTIF_PROBES)])
     walker_coverage(ctx, srcs + progs.program_sources(ctx, rnd, 300 if ctx.quick else 3000))
     b = progs.generate(ctx, 'all', 6 if ctx.quick else 7)[-1]
     ctx.sample({'gen': 'GenProg', 'src': progs.render(b, 'spaced').decode('latin1'), 'deriv': b['deriv']})
